@@ -2272,7 +2272,10 @@ def parameters_writer_rule(prog, res, rule='parameters-write'):
         ck.bad('padding', ck.where(lp or t), 'expected tell() and a zero-padding loop after the last group')
     else:
         iv, x = interval_of_padding(pshow(lp[1]))
-        if iv is None or x not in ('(int)%s.operator long()' % t[2], '%s.operator long()' % t[2], '(int)(long)%s' % t[2]):
+        if iv is None and (lp[1] is None or '% 512' not in pshow(lp[1])):
+            # a countdown / a count kept in a local: the number of padding bytes is not an expression the rule reads
+            ck.shape('padding', ck.where(lp), 'the padding loop runs %s times: not an expression over the stream position the rule reads (expected 512 - position %% 512)' % pshow(lp[1]))
+        elif iv is None or x not in ('(int)%s.operator long()' % t[2], '%s.operator long()' % t[2], '(int)(long)%s' % t[2]):
             ck.bad('padding', ck.where(lp), 'padding count is %s; the section must end on a block boundary and contain at least one zero byte (the chain terminator): '
                    'count must be 512 - (position %% 512), i.e. in [1,512]' % pshow(lp[1]))
         else:
@@ -3118,6 +3121,10 @@ def label_binding_rule(prog, res, rule='label-binding'):
         res.ok(rule, 'positional label binding', ', '.join(sorted(found.values())), 'element i is named LABELS[i] when i < LABELS.size, else a generated name (points and channels)', function=f.sig, expr='labels')
     elif wrong:
         res.viol(rule, 'positional label binding', f.loc(), 'point/channel i must be named <GROUP>:LABELS[i] iff i < LABELS.size; %s' % '; '.join(wrong), function=f.sig, expr='labels')
+    elif not src and any(c_['callee'].get('inrepo') and c_['callee'].get('usr') in prog.funcs and (prog.funcs[c_['callee']['usr']].rec.get('internal') or '(anonymous namespace)' in c_['callee']['qname']) and
+                         any(re.search(r'"(POINT|ANALOG)"|_parameters', R.render(a_)) for a_ in f.call_args(c_)) for c_ in f.calls()):
+        res.undecided(rule, 'positional label binding', f.loc(), 'the label lists come out of a file-local helper that is handed the parameters / a group name: where they are fetched is not read by the rule '
+                      '[shape not read by the rule]', function=f.sig, expr='labels')
     elif not src:
         res.viol(rule, 'positional label binding', f.loc(), 'point/channel i must be named <GROUP>:LABELS[i] iff i < LABELS.size: the data reader never fetches the LABELS lists',
                  function=f.sig, expr='labels')
@@ -3664,6 +3671,8 @@ def expr_values(prog, f, i, depth):
     if lr is not None:
         return expr_values(prog, f, lr, depth)
     n = f.nodes[f.strip(i, 'all')]
+    if n['k'] == 'CallExpr' and n.get('callee', {}).get('qname') in ('std::move', 'std::forward') and len(n.get('args', [])) == 1:
+        return expr_values(prog, f, n['args'][0], depth)      # the value that is moved
     if 'cv' in n:
         return [('const', int(n['cv']))]
     if n['k'] == 'CXXMemberCallExpr' and n['callee']['name'] == 'readUint':
@@ -3738,6 +3747,8 @@ def string_len_bounded(prog, cls, poly):
         if re.match(r'^"[^"]{0,255}"$', r):
             continue
         n = f.nodes[f.strip(rhs, 'all')]
+        if n['k'] == 'CallExpr' and n.get('callee', {}).get('qname') == 'std::move' and len(n.get('args', [])) == 1:
+            n = f.nodes[f.strip(n['args'][0], 'all')]      # the parameter moved into the member
         if n['k'] == 'DeclRefExpr' and n['decl'].get('dk') == 'param':
             # constructor / setter parameter: all call sites inside the library
             idx = [p['id'] for p in f.params].index(n['decl']['id'])
